@@ -1,3 +1,4 @@
+import BalmProofs.AllOpsPres
 import Balm.Impl.Cache
 import Balm.Impl.SkipExcl
 /-! C16: `Balm.Cache.step_rel` (the "equal up to reclaimed candidates" relation is a bisimulation for
